@@ -1139,7 +1139,7 @@ def work(item):
         for t in arg:
             try:
                 out.append(foreign_case(*t) if t[0] != 'KE' else foreign_ke_case(t[1], t[2]))
-            except IndexError:
+            except (IndexError, KeyError):
                 # the scenario could not be set up: the ordinary exchanges before the foreign request did not go through
                 # (two daemons with the same policy) - no datagram where one must be
                 out.append(dict(outcome=('not-staged',) + tuple(t), found=[(
